@@ -1,6 +1,6 @@
 """C07 — Boot storage images place each installed envelope intact in its role's slot (tables, contracts, bounded stand-in)."""
 import z3
-from pyvc.contract import Contract
+from pyvc.contract import Contract, REGISTRY
 from pyvc.types import Int, Bool, Bytes, Str, Obj, PathStr, OneOf, ListT, NoneT, Const, DictT, EnumT, Opt, Computed
 from pyvc import symdesc as SD
 from contracts import registry as R
@@ -13,7 +13,9 @@ EXPLANATION = ("E: slot layout tables of both SoCs (roles unique, slots pairwise
                "prepare_suit_data / SuitManifest.from_obj / cbor_dumps / bytes.find executed on description templates with symbolic leaves (component id first / last / "
                "raw / absent) against a two-key role table and an arbitrary subset of stored roles: exactly one slot {0: 1, 1: off, 2: envelope} is added under the "
                "role of the manifest's class UUID, the 16 bytes at `off` ARE that UUID, it fits the slot, nothing else changes, and a rejection has one of the stated "
-               "reasons. B: the whole `image boot` flow on generated envelopes read back with the independent HEX/CBOR readers (re-encoding identity of parsed "
+               "reasons; ImageCreator._create_suit_storage_files_for_boot for ANY number of envelopes (loop rule; callees by contract): every add_envelope call precedes "
+               "every file write (a rejection leaves no file), per domain exactly the map as_intelhex returned is written to <dir>/suit_installed_envelopes_<domain>_merged.hex. "
+               "B: the whole `image boot` flow on generated envelopes read back with the independent HEX/CBOR readers (re-encoding identity of parsed "
                "envelopes, file writing, configuration over defaults are decided there). Level `other`.")
 FI = "suit_generator/cmd_image.py"
 FE = "suit_generator/envelope.py"
@@ -307,6 +309,97 @@ c.check("slot", _add_envelope_checks)
 c.feas_timeout_ms = 400  # table-key comparisons are satisfiable either way; the solver only finds out slowly in this context
 c.raises("GeneratorError")
 c.raises("ValueError")  # descriptions the encoder rejects
+
+
+# ------------------------------------------------------------------------------------------------
+# Orchestration: ImageCreator._create_suit_storage_files_for_boot for ANY number of envelopes (invariant loop rule).  Call sites
+# see only the contracts of EnvelopeStorage.__init__ / add_envelope / as_intelhex (verified above and in C13): the statement is a
+# trace-order one - every add_envelope call precedes every file write (so a rejection by add_envelope or by the constructor
+# leaves no file behind), and per domain exactly the hex map as_intelhex(domain) returned is written to
+# <dir>/suit_installed_envelopes_<domain>_merged.hex, nothing when it returned None.
+REGISTRY[(FI, "EnvelopeStorage.add_envelope")].modifies(**{"self._envelopes": DictT()})
+
+
+def _hex_result(it, env):
+    from pyvc.values import VLib, VOpaque, VInt, NONE
+    from pyvc.stubs import ValSort
+    if it.choose(2, "as_intelhex_none_or_map") == 0:
+        return NONE
+    return VLib("IntelHex", state=VOpaque(z3.Const(it.fresh_name("hexmap_of_domain"), ValSort), "hexmap"), padding=VInt(0xFF))
+
+
+REGISTRY[(FI, "EnvelopeStorage.as_intelhex")].result(Computed(_hex_result))
+
+_WRITES = ("write", "write_hex", "open-w", "open-a")
+
+
+def _no_write_so_far(it, env, mark):
+    w = [t for t in it.trace if t[0] in _WRITES]
+    return [("no_file_is_written_before_every_envelope_was_accepted", not w)]
+
+
+def _envelopes_list(it, env):
+    from pyvc import shapes
+    from pyvc.values import VClass
+    return shapes.make(it, shapes.AbsListT(shapes.InstT(lambda it_: [VClass(info=it_.get_class(FE, "SuitEnvelope"))])), "envelopes")
+
+
+c = Contract(FI, "ImageCreator._create_suit_storage_files_for_boot", ["C07"])
+c.param("envelopes", Computed(_envelopes_list))
+c.param("storage_address", Int(0, 2 ** 32 - 1))
+c.param("dir_name", Str())
+c.param("config_file", Opt(Str()))
+c.param("soc", OneOf(Const("nrf54h20"), Const("nrf9280"), Str()))
+
+
+def _boot_files_checks(it, ctx):
+    from pyvc.values import VNone, VLib
+    from pyvc.stubs_lib import _hexfns
+    from pyvc import stubs
+    H = _hexfns()
+    calls = [(i, t) for i, t in enumerate(it.trace) if t[0] == "call"]
+    hexcalls = [(i, t) for i, t in calls if t[1] == "EnvelopeStorage.as_intelhex"]
+    writes = [(i, t) for i, t in enumerate(it.trace) if t[0] in _WRITES]
+    adds = [(i, t) for i, t in calls if t[1] == "EnvelopeStorage.add_envelope"]
+    goals = [("every_add_envelope_precedes_every_file_write", z3.BoolVal(all(i < j for i, _ in adds for j, _ in writes)))]
+    if ctx.outcome == "raise":
+        if not hexcalls:
+            # rejected by the constructor, by add_envelope, or as an unknown SoC: nothing was written
+            goals.append(("rejection_before_the_export_leaves_no_file", z3.BoolVal(not writes)))
+        return goals
+    doms = ["SECURE", "RADIO", "APPLICATION"]
+    names = [getattr(t[2]["storage_domain"], "name", None) for _, t in hexcalls]
+    goals.append(("one_export_per_domain", z3.BoolVal(sorted(map(str, names)) == sorted(doms))))
+    if sorted(map(str, names)) != sorted(doms):
+        return goals
+    expect = []
+    for _, t in hexcalls:
+        r = t[3]
+        if isinstance(r, VLib):
+            expect.append((t[2]["storage_domain"].name, r))
+    hexw = [t for _, t in writes if t[0] == "write_hex"]
+    goals.append(("only_hex_files_of_non_empty_domains_are_written", z3.BoolVal(len(hexw) == len(expect) and len(writes) == len([w for w in writes if w[1][0] in ("write_hex", "write")]) and
+                                                                            len([w for w in writes if w[1][0] == "write"]) == len(hexw))))
+    if len(hexw) != len(expect):
+        return goals
+    for (dom, r), w in zip(expect, hexw):
+        path = stubs.path_term(it, stubs.concat_str(stubs.concat_str(ctx.arg("dir_name"), __import__("pyvc.values", fromlist=["VStr"]).VStr("/suit_installed_envelopes_" + dom.lower() + "_merged.hex")),
+                                                    __import__("pyvc.values", fromlist=["VStr"]).VStr("")))
+        goals.append((f"file_name[{dom}]", w[1] == path if not isinstance(w[1], bool) else z3.BoolVal(False)))
+        st = w[2].e if hasattr(w[2], "e") else w[2]
+        goals.append((f"file_holds_exactly_the_exported_map[{dom}]", z3.Or(st == r.f["state"].e, st == H["MERGE"](H["EMPTY"], r.f["state"].e))))
+    return goals
+
+
+c.check("files", _boot_files_checks)
+from pyvc.shapes import ObjInvT  # noqa: E402
+c.loops(storage=ObjInvT(Obj(FI, "EnvelopeStorage", _assignments=DictT(), _base_address=Int(), _envelopes=DictT()), "True"), body_check=_no_write_so_far)
+c.raises("GeneratorError")
+c.raises("ValueError")
+c.raises("KeyError")
+c.raises("SystemExit")
+c.raises("FileNotFoundError")  # missing output directory
+c.raises("intelhex.AddressOverlapError")
 
 
 # ================================================================================================
